@@ -27,6 +27,7 @@ func (m *Mutex) Lock() {
 		vsched.Yield()
 		if !m.locked {
 			m.locked = true
+			vsched.K(vsched.KLock)
 			vsched.Log()
 			return
 		}
@@ -42,7 +43,7 @@ func (m *Mutex) Unlock() {
 		m.real.Unlock()
 		return
 	}
-	vsched.Step()
+	vsched.StepK(vsched.KUnlock)
 	m.locked = false
 	vsched.Unblock(m)
 }
@@ -54,7 +55,7 @@ func (m *Mutex) TryLock() bool {
 	if !vsched.Active() {
 		return m.real.TryLock()
 	}
-	vsched.Step()
+	vsched.StepK(vsched.KTryLock)
 	if m.locked {
 		return false
 	}
@@ -80,6 +81,7 @@ func (m *RWMutex) Lock() {
 		vsched.Yield()
 		if !m.writer && m.readers == 0 {
 			m.writer = true
+			vsched.K(vsched.KLock)
 			vsched.Log()
 			return
 		}
@@ -95,7 +97,7 @@ func (m *RWMutex) Unlock() {
 		m.real.Unlock()
 		return
 	}
-	vsched.Step()
+	vsched.StepK(vsched.KUnlock)
 	m.writer = false
 	vsched.Unblock(m)
 }
@@ -112,6 +114,7 @@ func (m *RWMutex) RLock() {
 		vsched.Yield()
 		if !m.writer {
 			m.readers++
+			vsched.K(vsched.KRLock)
 			vsched.Log()
 			return
 		}
@@ -127,7 +130,7 @@ func (m *RWMutex) RUnlock() {
 		m.real.RUnlock()
 		return
 	}
-	vsched.Step()
+	vsched.StepK(vsched.KRUnlock)
 	m.readers--
 	vsched.Unblock(m)
 }
@@ -158,7 +161,7 @@ type WaitGroup struct {
 }
 
 func (w *WaitGroup) Add(d int) {
-	vsched.Step()
+	vsched.StepK(vsched.KWgAdd)
 	w.n += d
 	if w.n < 0 {
 		panic("sync: negative WaitGroup counter")
@@ -168,6 +171,7 @@ func (w *WaitGroup) Add(d int) {
 func (w *WaitGroup) Done() { w.Add(-1) }
 
 func (w *WaitGroup) Wait() {
+	vsched.K(vsched.KWgWait)
 	vsched.WaitUntil(func() bool { return w.n == 0 })
 }
 
